@@ -19,6 +19,7 @@ RULE = ("(a) core: random declared exponent vectors (rational exponents in [-3,3
         "positional/keyword and at 3 magnitudes with 2 prefixes and all verdicts must coincide with the reference gate; same for "
         "results (validate_output, validate_output_same). (b) catalogue: exhaustive over decorated functions x guarded parameters "
         "of the working tree. non-trivial = actual differs from the canonical spelling of the declaration; distinct = distinct case.")
+RULE = RULE + " Also: quantity vectors in cylindrical / spherical systems with zero components in every position; quantities and declarations that carry the non-SI base dimension 'information' (bit, byte, kibibyte)."
 ASSUMPTIONS = ["reference gate: accept iff exponent vectors equal after erasing angle, or value is 0/+-oo/nan, or declaration is "
                "the wildcard; TypeError iff actual dimensionless and declared not; else UnitsError",
                "SymPy dimsys_SI expansion of dimensions; own unit table for derived spellings"]
